@@ -196,7 +196,7 @@ func runSetting(mc *modbus.ModbusClient, name string, r *Rng) {
 
 func init() {
 	checks["C08"] = func(tier string, seed uint64, res *Result) error {
-		res.Rule = "pairs (thorough: also 4-goroutine mixes) of public client methods run concurrently on one real client (tcp, rtuovertcp) over a scripted device, built with -race: every written frame must be one well-formed request, no request may be written while a reply is unread (one outstanding request), every read result must consist of the caller's own tag bytes, and the race detector must stay silent; quick: every method x {SetEncoding, SetUnitId, Close, Open} + sampled method pairs; thorough: all pairs; distinct = (scheme, method A, method B)"
+		res.Rule = "pairs (thorough: also 4-goroutine mixes) of public client methods run concurrently on one real client (tcp, rtuovertcp) over a scripted device, built with -race: every written frame must be one well-formed request, no request may be written while a reply is unread (one outstanding request), every read result must consist of the caller's own tag bytes, and the race detector must stay silent; quick: every method x {SetEncoding, SetUnitId, Close, Open} + one pair per core function on both framings + sampled method pairs; thorough: all pairs; distinct = (scheme, method A, method B)"
 		r := NewRng(seed)
 		type pair struct{ a, b string }
 		var pairs []pair
@@ -221,11 +221,60 @@ func init() {
 				pairs = append(pairs, pair{allOps[r.Intn(len(allOps))], allOps[r.Intn(len(allOps))]})
 			}
 		}
+		// held results: goroutine A keeps what ReadBytes / ReadRawBytes returned while goroutine B
+		// completes an exchange of its own on the same client; A's data must still be A's reply
+		// ("each caller receives the reply to its own request") — ordered by channels, so the
+		// outcome does not depend on scheduling
+		for _, kind := range []string{"tcp", "rtuovertcp"} {
+			for _, raw := range []bool{false, true} {
+				mc, conn, err := newScriptedClient(kind)
+				if err != nil {
+					res.Note(err.Error())
+					continue
+				}
+				dev := &concDevice{conn: conn, rtu: isRTUKind(kind)}
+				dev.attach()
+				read := func(addr uint16) ([]byte, error) {
+					if raw {
+						return mc.ReadRawBytes(addr, 16, modbus.HOLDING_REGISTER)
+					}
+					return mc.ReadBytes(addr, 16, modbus.HOLDING_REGISTER)
+				}
+				var held []byte
+				var errA, errB error
+				stepA, stepB := make(chan struct{}), make(chan struct{})
+				go func() { held, errA = read(0x10a1); close(stepA) }()
+				<-stepA
+				go func() { _, errB = read(0x20b2); close(stepB) }()
+				<-stepB
+				name := "ReadBytes"
+				if raw {
+					name = "ReadRawBytes"
+				}
+				line := fmt.Sprintf("%s: goroutine A %s(0x10a1, 16) keeps its result; goroutine B %s(0x20b2, 16) completes; A looks at its result again", kind, name, name)
+				ok := errA == nil && errB == nil && len(held) == 16
+				for _, x := range held {
+					if x != 0xa1 {
+						ok = false
+					}
+				}
+				res.Eval("held-result/"+kind+"/"+name, ok, line)
+				if !ok {
+					res.Add(Finding{Kind: "property", Check: "own-reply-held", Line: line, Impl: fmt.Sprintf("errA=%v errB=%v A's data now %s", errA, errB, hx(held)),
+						Expect: "sixteen bytes a1 (the reply to A's own request)", Note: "the data a caller received turned into the reply to another caller's request"})
+				}
+				mc.Close()
+			}
+		}
 		// one pair per core function (both calls go through the same lock region), always with
 		// replies held back so that two requests outstanding at once become visible
 		corePairs := []pair{{"ReadCoils", "ReadDiscreteInputs"}, {"ReadCoil", "ReadCoils"}, {"ReadRegisters", "ReadUint32s"}, {"ReadBytes", "ReadFloat64"},
 			{"WriteRegisters", "WriteUint32"}, {"WriteBytes", "WriteFloat64s"}, {"WriteCoil", "WriteCoil"}, {"WriteCoils", "WriteCoils"}, {"WriteRegister", "WriteRegister"},
 			{"ReadCoils", "WriteCoils"}, {"ReadRegisters", "WriteRegister"}}
+		// the same core pairs once more on the RTU framing (its transport has state of its own:
+		// receive path, inter-frame timing), then the sampled pairs
+		nTCPCore := len(corePairs)
+		corePairs = append(corePairs, corePairs...)
 		nCore := len(corePairs)
 		pairs = append(corePairs, pairs...)
 		var wg sync.WaitGroup
@@ -238,7 +287,7 @@ func init() {
 				defer func() { <-sem }()
 				pr := NewRng(seed).Fork(uint64(8000 + pi))
 				kind := "tcp"
-				if pi%9 == 0 && pi >= nCore {
+				if (pi%9 == 0 && pi >= nCore) || (pi >= nTCPCore && pi < nCore) {
 					kind = "rtuovertcp"
 				}
 				mc, conn, err := newScriptedClient(kind)
@@ -256,6 +305,9 @@ func init() {
 				dev.attach()
 				if kind != "tcp" {
 					iters = 3
+					if pi < nCore {
+						iters = 12
+					}
 				}
 				start := make(chan struct{})
 				var inner sync.WaitGroup
